@@ -58,7 +58,12 @@ def explore(ctx):
                             continue
                         if rng.random() < (1.0 if tier == "thorough" else 0.4) or d in ("none", "known_component", "unsorted"):
                             ext.append(dict(base, mode="ext", dev=d, seed=rng.randrange(1 << 30)))
-                    # policy deviations with an otherwise valid proof
+                    # policy deviations with an otherwise valid proof: exactly one of several requested labels is blindable
+                    # (whichever position it has in the request), the others are not
+                    if len(hid) >= 2:
+                        for keep in hid:
+                            ext.append(dict(base, mode="ext", dev="none", blindable=[keep], note=f"only label {keep} of the requested ones is blindable",
+                                            seed=rng.randrange(1 << 30)))
                     if len(hid) < n - 1:
                         other = [i for i in range(1, n) if i not in hid][0]
                         ext.append(dict(base, mode="ext", dev="none", blindable=[], note="labels not blindable", seed=rng.randrange(1 << 30)))
